@@ -869,6 +869,8 @@ class Message:
             except struct_error as ex:
                 raise InvalidSyntax(ex)
             critical = bool(critical >> 7)
+            if length < 4:
+                raise InvalidSyntax(f'Payload length {length} is smaller than the generic payload header')
             start = offset + 4
             end = offset + length
             # Parse the payload. If not known and critical, raise exception
